@@ -299,6 +299,59 @@ def mutate(rng, c):
     return c
 
 
+def config_stage(R):
+    """Configuration types through the real compiler (family tools/gen_config.py of the shared e2e stage): the generated
+    `ApplicationConfig` must have a field for exactly the configuration types that are used or kept, and
+    `#[serde(default)]` on exactly those that may be missing - where the registration (`bp.config(X).required()` ..)
+    overrides the `#[pavex::config(..)]` attribute. Model-free oracle; a failing program is the replay."""
+    import re
+    import e2e_stage
+    obs, info = e2e_stage.get_stage(R)
+    n = nf = 0
+    combos = {}
+    ok = True
+    for name, o in sorted(obs.items()):
+        if o["klass"] != "config" or not o.get("spec"):
+            continue
+        n += 1
+        if o["rc"] != 0:
+            R.violation("a blueprint that only registers configuration types and one route was rejected by pavexc: %s" % o["out"][-300:],
+                        {"program": name, "app_module_source": o["src"], "out": o["out"][-2000:]})
+            ok = False
+            continue
+        m = re.search(r"pub struct ApplicationConfig\s*\{(.*?)\n\}", o["lib_rs"], re.S)
+        body = m.group(1) if m else ""
+        fields = {}
+        pending_default = False
+        for line in body.split("\n"):
+            line = line.strip()
+            if line.startswith("#[serde(default)]"):
+                pending_default = True
+            mm = re.match(r"pub (\w+):", line)
+            if mm:
+                fields[mm.group(1)] = pending_default
+                pending_default = False
+        for c in o["spec"]["configs"]:
+            combos[(c["attr_default"], c["attr_include"], tuple(c["reg"]), c["used"])] = 1
+            present = c["key"] in fields
+            why = None
+            if present != c["expect_present"]:
+                why = "configuration key `%s` is %s the generated ApplicationConfig, expected %s (used=%s, attribute include_if_unused=%s, registration %s)" % (
+                    c["key"], "in" if present else "missing from", "present" if c["expect_present"] else "absent", c["used"], c["attr_include"], c["reg"])
+            elif present and fields[c["key"]] != c["expect_default"]:
+                why = "configuration key `%s`: #[serde(default)] is %s, but the blueprint says %s (attribute default_if_missing=%s, registration %s: the registration wins)" % (
+                    c["key"], "present" if fields[c["key"]] else "absent", "it may be missing" if c["expect_default"] else "it is required", c["attr_default"], c["reg"])
+            if why:
+                nf += 1
+                ok = False
+                if nf <= 2:
+                    R.violation("what was registered is not what the compiler used: " + why,
+                                {"program": name, "config": c, "application_config": body, "app_module_source": o["src"], "klass": "config"})
+    R.coverage["config_types_e2e"] = {"programs": n, "distinct (attribute, registration, used) combinations": len(combos), "oracle_failures": nf}
+    R.log("config family: %d programs, %d combinations, %d oracle failures" % (n, len(combos), nf))
+    return ok
+
+
 def run(R):
     R.assumptions += [
         "RON serialisation by Blueprint::persist and ron::de::from_reader (ron 0.12) + the serde derives of pavex_bp_schema are not "
@@ -312,6 +365,8 @@ def run(R):
         "attribute string values range over characters other than `\"` and `\\` (no escape sequences modelled)",
     ]
     extra_ok = True
+    if os.environ.get("PXV_C19_E2E", "1") != "0" and not R.replay:
+        extra_ok = config_stage(R) and extra_ok
     bad = attrs.srcshape(R)
     if bad:
         R.violation("the macros' quote! templates no longer match the modelled attribute layout: " + "; ".join(bad)[:600],
